@@ -39,6 +39,16 @@ def load_known():
         return json.load(f).get("findings", [])
 
 
+class _OpenKnown(dict):
+    def get(self, pid, default=None):
+        if pid not in self:
+            self[pid] = {f["id"] for f in load_known() if f.get("property") == pid and f.get("status", "known") == "known"}
+        return self[pid]
+
+
+OPEN_KNOWN = _OpenKnown()
+
+
 def _relevant(o, pid):
     return (not o.get("props")) or (pid in o["props"])
 
@@ -92,6 +102,10 @@ def summarize(pid, tier, seed, results, meta, t_start, extra_cov=None, known_lin
             elif o["verdict"] == "refuted":
                 e["refuted"] += 1
                 refuted.append(o)
+                if o.get("known") and o["known"] in OPEN_KNOWN.get(pid, set()):
+                    # proved under the exclusion of the recorded region (second solver query in verify.single): discharged as such
+                    discharged += 1
+                    by_backend["z3 (outside the recorded known-finding region)"] = by_backend.get("z3 (outside the recorded known-finding region)", 0) + 1
             else:
                 e["unknown"] += 1
                 unknown.append(o)
@@ -151,8 +165,10 @@ def finish(pid, ev, refuted, unknown, undecided, errors, replay_fn=None, known=N
     lines = []
     known_hits = {}
     viol = []
+    open_ids = {f["id"] for f in known if f.get("property") == pid and f.get("status", "known") == "known"}
     for o in refuted:
-        if o.get("known"):
+        # a refutation confined to a recorded region counts as that finding only while the finding is listed as open for this property
+        if o.get("known") and o["known"] in open_ids:
             known_hits.setdefault(o["known"], []).append(o)
         else:
             viol.append(o)
